@@ -94,6 +94,7 @@ Fixpoint skel_operand (x : operand) : operand :=
   | Paren po pc _ e _ => Paren po pc [] (skel_expr e) []
   | Call name po pc a => Call name po pc a
   | Fact first ms => Fact first ms
+  | Brace bo bc bw wl => Brace bo bc bw wl
   end
 with skel_expr (e : ParseChains.expr) : ParseChains.expr := match e with Chain x r => Chain (skel_operand x) (skel_tail r) end
 with skel_tail (r : tail) : tail :=
@@ -122,6 +123,7 @@ Proof.
   - reflexivity.
   - reflexivity.
   - intros po pc w1 e IHe w2. cbn [skel_operand sem_operand]. exact IHe.
+  - reflexivity.
   - reflexivity.
   - reflexivity.
   - intros x IHx r (Hp & Hs & Hb). cbn [skel_expr sem_expr]. rewrite Hp. apply texpr_ext.
